@@ -31,8 +31,8 @@ CHECKS = {
    text="TLC proves on all enumerated entries RejectIff (reject exactly when a listed defect is present), Sound (no accepted record has duplicate members) and Transparent (Accept(on) = Accept(off)); the real formatter's decision must equal the model for all_validations, builder and skip_all_validations(false) in dev and release harness builds; rejected => zero bytes, accepted => no duplicate member and output identical to a no-validation formatter.",
    note="Emf::builder / skip_all_validations(false) are taken at their documentation (validations on iff debug assertions); AllowUnroutableEntries entries compared as drift only; byte equality = equality of the multiset of lines (split records come out in hash-map order)"),
  "C14": dict(design="4/C14", technique="TLC model checking of the formatter's reused state (EmfHistory.tla: Stateless/NoResidue/PrefixKept over all kind sequences, model-bug sensitivity runs) + TLC-generated kind sequences replayed into one long-lived real formatter and compared per position with a freshly built one",
-   text="TLC proves on the abstract buffer/map/flag/capacity model that output and decision for every entry kind are independent of any preceding sequence and that seeded missing resets break this; every TLC sequence (pairs/triples over 19 kinds x 4 writer behaviours x 11 configurations, 200-long simulate walks) is replayed into the real Emf / SampledEmf / wrapped formatter and each position compared (Result class + records as a multiset of parsed lines) with a fresh formatter, including rejected, split, sampled, multi-megabyte and I/O-failed predecessors.",
-   note="catalogue of 19 kinds x 4 writer behaviours (none / fails on first byte / mid record / inside the last line) x 11 configurations; byte contents only via concrete representatives; error text differences are drift only"),
+   text="TLC proves on the abstract buffer/map/flag/capacity model that output and decision for every entry kind are independent of any preceding sequence and that seeded missing resets break this; every TLC sequence (pairs/triples over 24 kinds x 4 writer behaviours x 11 configurations, 200-long simulate walks) is replayed into the real Emf / SampledEmf / wrapped formatter and each position compared (Result class + records as a multiset of parsed lines) with a fresh formatter, including rejected, split, sampled, multi-megabyte and I/O-failed predecessors.",
+   note="catalogue of 24 kinds x 4 writer behaviours (none / fails on first byte / mid record / inside the last line) x 11 configurations; byte contents only via concrete representatives; error text differences are drift only"),
  "C15": dict(design="4/C15", technique="TLA+ two-layer model of the value/entry writer pipeline (ValuePipeline.tla, TLC invariant on every wrapper stack) + exhaustive replay of all TLC-printed stacks/compositions into the real wrapper types, recording ValueWriter/EntryWriter as observation",
    text="TLC checks for every stack of value wrappers (depth <=2 quick / <=3 thorough, 11 base values) and every composition of entry wrappers (BoxEntry, Merged/MergedRef/MergeGlobals, WithGlobalDimensions incl. deny list, WithDimensions/ForceFlag as Entry/InflectableEntry/stream, RootEntry, Option/Box/Arc/Cow/&) that the layer-by-layer result is the plain item sequence plus only the documented additions, sample groups included; every stack is built from the real types and the call sequence seen by a recording format is compared item by item with TLC's expectation.",
    note="small scope: nesting depth 3, fixed parameter sets; flags observed through a harness MetricOptions; borrowed-vs-owned names not observed"),
